@@ -278,6 +278,19 @@ def transitions(state, vals, out):
     nxt.update(upd)
     chk('update', ix, nxt)
     n += 1
+    # update(another fsIndex), the same two keys and one key alone: every
+    # other key under a shared prefix must stay
+    for ks in (KEYS[:1] + KEYS[-1:], KEYS[1:2]):
+        ix = build_direct(state)
+        upd = {k: vals[(i + 1) % len(vals)] for i, k in enumerate(ks)}
+        other = fsIndex()()
+        for k, v in upd.items():
+            other[k] = v
+        ix.update(other)
+        nxt = dict(state)
+        nxt.update(upd)
+        chk('update-fsindex-%d' % len(ks), ix, nxt)
+        n += 1
     return succ, n
 
 
@@ -370,7 +383,7 @@ def run(rep, tier, seed, workers):
         '%d query keys (present and absent prefixes, suffixes between and '
         'beyond the stored ones) are asked for get/[]/in/has_key/minKey/'
         'maxKey plus len/keys/items/values/iter and a save/load round trip; '
-        'transitions = set/update/delete/clear/update(mapping) executed on '
+        'transitions = set/update/delete/clear/update(dict)/update(fsIndex) executed on '
         'the real object and compared with a sorted dict; non-trivial = '
         'state with at least 2 keys' % (allvals, len(QKEYS)))
     rep.bounds = dict(keys=len(KEYS), values=allvals, query_keys=len(QKEYS),
